@@ -112,8 +112,8 @@ impl ast::BinOpKind {
                 token![binop <=] =>ScalarValue::Int( (a <= b) as i32),
                 token![binop >] => ScalarValue::Int((a > b) as i32),
                 token![binop >=] =>ScalarValue::Int( (a >= b) as i32),
-                token![binop ||] => ScalarValue::Int(if a == 0 { b } else { a }),
-                token![binop &&] => ScalarValue::Int(if a == 0 { 0 } else { b }),
+                token![binop ||] => ScalarValue::Int((a != 0 || b != 0) as i32),
+                token![binop &&] => ScalarValue::Int((a != 0 && b != 0) as i32),
                 token![binop ^] => ScalarValue::Int(a ^ b),
                 token![binop &] => ScalarValue::Int(a & b),
                 token![binop |] => ScalarValue::Int(a | b),
